@@ -1,0 +1,1 @@
+//! verif-hooks: num area (read-only accessors; see mod.rs)
